@@ -1,5 +1,6 @@
 import Upf.Proofs.AgentWorld
 import Upf.Gen.Dispatch
+import Upf.Proofs.AgentReply
 /-!
 # C02 — Every request gets exactly one correctly addressed response
 
@@ -63,6 +64,35 @@ theorem mod_unknown (cfg : Cfg) (w : World) (a : Nat) (r : ModReq)
     (h : (w.conn a).sessions.find? (·.lseid = r.seid) = none) :
     (Agent.modify cfg w a r).reply = { cause := causeRejected, seid := 0 } ∧ (Agent.modify cfg w a r).world = w ∧ (Agent.modify cfg w a r).markers = [] := by
   simp [Agent.modify, h]
+
+/-- modification of a known session: the one reply — accepted or rejected at any point — is addressed to the control plane's SEID
+for that session: the one this request brings in a CP F-SEID, else the stored one -/
+theorem mod_reply_seid (cfg : Cfg) (w : World) (a : Nat) (r : ModReq) (s0 : Session)
+    (h : (w.conn a).sessions.find? (·.lseid = r.seid) = some s0) :
+    (modify cfg w a r).reply.seid = cpSeidAfter r s0 := Agent.mod_reply_seid cfg w a r s0 h
+
+/-- an accepted modification stores that SEID with the session (same UP SEID), so a CP F-SEID change is remembered … -/
+theorem mod_accepted_stores_cp_seid (cfg : Cfg) (w : World) (a : Nat) (r : ModReq) (s0 : Session)
+    (h : (w.conn a).sessions.find? (·.lseid = r.seid) = some s0) (hacc : (modify cfg w a r).reply.cause = causeAccepted) :
+    ∃ s', ((modify cfg w a r).world.conn a).sessions.find? (·.lseid = r.seid) = some s' ∧ s'.rseid = cpSeidAfter r s0 ∧ s'.lseid = r.seid :=
+  Agent.mod_accepted_stores_cp_seid cfg w a r s0 h hacc
+
+/-- … and the next response for the session (its Session Deletion Response) carries it -/
+theorem cp_seid_change_is_remembered (cfg : Cfg) (w : World) (a : Nat) (r : ModReq) (s0 : Session)
+    (h : (w.conn a).sessions.find? (·.lseid = r.seid) = some s0) (hacc : (modify cfg w a r).reply.cause = causeAccepted) :
+    (deleteSession cfg (modify cfg w a r).world a r.seid).2 = { cause := causeAccepted, seid := cpSeidAfter r s0 } :=
+  Agent.cp_seid_change_is_remembered cfg w a r s0 h hacc
+
+-- non-vacuity: an established session (CP SEID 5001), a modification that only brings a new CP F-SEID (9999) is accepted and answered
+-- with 9999, and so is the deletion that follows
+def nvCfg : Cfg := { accessIP := 0xC6120101, coreIP := 0x7F000001, ueAlloc := false, endMarker := false, qci := [] }
+def nvW : World := (establish nvCfg { conns := [(0, { remoteNode := "smf" })] } 0 77
+  { nodeID := "smf", cpSeid := 5001, cpIP := 1,
+    pdrs := [{ id := 1, prec := 1, srcIface := some 1, ueip := some (2, 0x0A3C0001), farID := 1 }],
+    fars := [{ id := 1, action := 2, fwd := some { dst := some 0, ohc := some (7, 0xC6120109) } }], qers := [] }).1
+example : (modify nvCfg nvW 0 { seid := 77, cpFseid := some (9999, 1) }).reply = { cause := 1, seid := 9999 } ∧
+    (deleteSession nvCfg (modify nvCfg nvW 0 { seid := 77, cpFseid := some (9999, 1) }).world 0 77).2 = { cause := 1, seid := 9999 } := by
+  decide +kernel
 
 /-- cause values: acceptance is 1; the rejection causes differ from it -/
 theorem causes : causeAccepted = 1 ∧ causeRejected = 64 ∧ causeNoAssoc = 72 ∧ causeNoResources = 75 := ⟨rfl, rfl, rfl, rfl⟩
